@@ -104,7 +104,10 @@ func RunHeal(c *Cluster, seed uint64) *HealResult {
 		if round >= limit {
 			if res.Exempt == "" {
 				msg := fmt.Sprintf("not converged after %d rounds (budget %d): %s", round, limit, firstNonEmpty(why, "probe proposals not applied everywhere"))
-				if strings.Contains(why, "auto-leave still active") {
+				if sq := staleQuorumStuck(c); sq != "" {
+					// known finding F-M: see known_findings.json
+					c.chk.report("C15", "lv.converged", nil, msg+"; "+sq, "lv.converged.stale_quorum")
+				} else if strings.Contains(why, "auto-leave still active") {
 					// C10: a leader leaves an auto-leave joint configuration by itself once applied
 					c.chk.report2("C15", "lv.converged", "C10", "mc.autoleave_done", nil, msg, "lv.converged")
 				} else {
@@ -208,6 +211,42 @@ func healExempt(c *Cluster) string {
 		}
 	}
 	return ""
+}
+
+// staleQuorumStuck recognises the state in which no election can succeed
+// whatever the implementation does: there is no leader, and every running node
+// that is a voter in the configuration it has applied needs, for that
+// configuration, a majority of a voter set of which too few members are
+// running (the others were removed by a change that is committed, and stopped,
+// before these nodes learned that it is committed).
+func staleQuorumStuck(c *Cluster) string {
+	if healLeader(c) != 0 {
+		return ""
+	}
+	up := func(id uint64) bool { n := c.nodes[id]; return n != nil && n.up }
+	voters := 0
+	desc := ""
+	for _, id := range c.ids {
+		n := c.nodes[id]
+		if !n.up {
+			continue
+		}
+		st := &n.st
+		if !inSet(st.Voters, id) && !inSet(st.VotersOutgoing, id) {
+			continue
+		}
+		voters++
+		if jointMaj(st.Voters, st.VotersOutgoing, up) {
+			return "" // this node could be elected by the running nodes
+		}
+		if desc == "" {
+			desc = fmt.Sprintf("node %d still has the configuration voters=%v outgoing=%v applied, of which too few members are running to form its quorum", id, st.Voters, st.VotersOutgoing)
+		}
+	}
+	if voters == 0 {
+		return ""
+	}
+	return "no running voter can assemble the quorum of the configuration it has applied: " + desc + " (the members that left were removed by a committed change and stopped before the survivors learned of the commit)"
 }
 
 func healLeader(c *Cluster) uint64 {
